@@ -246,6 +246,7 @@ class SymExec:
         self.nsqrt = 0
         self.pows = []
         self.sqrts = []
+        self.abss = []
         self.locals = set()
         self.outparams = set()
         self.assigned = set()
@@ -325,6 +326,18 @@ class SymExec:
                     self.axioms.append('(=> (= %s %s) (= |%s| |%s|))' % (a, a2, s, s2))
                 self.sqrts.append((a, s))
                 return '|%s|' % s
+            if e[1] in ('fabs', '__builtin_fabs', 'cm_abs') and len(e[2]) == 1:
+                # |x| as a shared symbol with its defining axioms (s >= 0, s^2 = x^2, s >= x, s >= -x): keeps large sums of
+                # absolute values polynomial instead of 2^n case splits
+                a = self.term(e[2][0], pc, old)
+                for (a2, s2) in self.abss:
+                    if a2 == a:
+                        return '|%s|' % s2
+                sname = 'abs!%d' % (len(self.abss) + 1)
+                self.decls[sname] = 'Real'
+                self.axioms.append('(and (>= |%s| 0.0) (= (* |%s| |%s|) (* %s %s)) (>= |%s| %s) (>= |%s| (- %s)))' % (sname, sname, sname, a, a, sname, a, sname, a))
+                self.abss.append((a, sname))
+                return '|%s|' % sname
             if e[1] in ('cm_pow', 'pow') and len(e[2]) == 2:
                 # pow is UNINTERPRETED: a fresh real per call, made functional by Ackermann congruence axioms
                 # (equal arguments give equal results); nothing else is assumed about its values
@@ -592,7 +605,9 @@ def _ev(node, val, defs, cache):
             if name in defs:
                 kind, args = defs[name]
                 a = [_ev(_sexpr(x), val, defs, cache) for x in args]
-                if kind == 'sqrt':
+                if kind == 'abs':
+                    r = abs(a[0])
+                elif kind == 'sqrt':
                     if not a[0] >= 0:
                         raise _Incomparable()
                     r = math.sqrt(a[0])
@@ -658,7 +673,7 @@ def differential_check(se, unit_c, fname, params, jd, incdirs, defines, samples=
     glob = [n for n in inputs if n not in pnames]
     drv = os.path.join(jd, 'diff_driver.c')
     with open(drv, 'w') as f:
-        f.write('#include <math.h>\n#include <stdio.h>\n#include <stdlib.h>\n#define cm_sqrt sqrt\n#define cm_pow pow\n#define __CPROVER_requires(...)\n#define __CPROVER_ensures(...)\n#define __CPROVER_assigns(...)\n')
+        f.write('#include <math.h>\n#include <stdio.h>\n#include <stdlib.h>\n#define cm_sqrt sqrt\n#define cm_pow pow\n#define cm_abs fabs\n#define __CPROVER_requires(...)\n#define __CPROVER_ensures(...)\n#define __CPROVER_assigns(...)\n')
         for n in sorted((set(glob) | set(outputs)) - set(pnames)):
             f.write('double %s;\n' % n)
         f.write('#include "%s"\n' % unit_c)
@@ -682,6 +697,8 @@ def differential_check(se, unit_c, fname, params, jd, incdirs, defines, samples=
         defs[sname] = ('sqrt', [a])
     for (a, b, sname) in se.pows:
         defs[sname] = ('pow', [a, b])
+    for (a, sname) in se.abss:
+        defs[sname] = ('abs', [a])
     trees = dict((n, _sexpr(se.env[n])) for n in outputs)
     rnd = random.Random(12345)
     compared = 0
